@@ -141,6 +141,9 @@ def run(R, tier, seed, driver_ok):
         # what the implementation's own _total_loss / _gradient return at its result (with its own normalised weights)
         try:
             li = float(est._total_loss(M, vab, vcd, Pinv)); Gi = np.asarray(est._gradient(M, vab, vcd, Pinv))
+        except (TypeError, AttributeError):
+            # the private helpers were refactored (another signature): this tie is not available; the oracle above still judges
+            R.count('impl-gradient-helpers-unavailable'); li, Gi = None, None
         except Exception as e:
             R.violation(f'LSML/loss-gradient-raises-{type(e).__name__}', f'_total_loss/_gradient raised {type(e).__name__} at the learned matrix', case); continue
         lines.append(f'lsml_eval {d} {nq} {bits(M)} {bits(Pinv)} {bits(vab)} {bits(vcd)} {bits(w)}')
@@ -175,7 +178,7 @@ def run(R, tier, seed, driver_ok):
                 R.broken('correspondence:C12:lsml_eval', f'model answered {o[:60]}', case); continue
             if abs(v[0] - l1) > 1e-8 * max(1.0, abs(l1)) or np.abs(v[1:] - G1.ravel()).max() > 1e-7 * max(1.0, np.abs(G1).max()):
                 R.broken('correspondence:C12:lsml_eval', f'twin objective/gradient differ from the reference evaluation (loss {v[0]} vs {l1})', case)
-            elif abs(v[0] - li) > 1e-8 * max(1.0, abs(li)) or Gi.shape != G1.shape or np.abs(v[1:] - Gi.ravel()).max() > 1e-7 * max(1.0, np.abs(Gi).max()):
+            elif li is not None and (abs(v[0] - li) > 1e-8 * max(1.0, abs(li)) or Gi.shape != G1.shape or np.abs(v[1:] - Gi.ravel()).max() > 1e-7 * max(1.0, np.abs(Gi).max())):
                 R.broken('correspondence:C12:lsml_impl', f"the model's objective/gradient (C12_first_order is about them) differ from the implementation's _total_loss/_gradient at the learned matrix (loss {v[0]} vs {li}, max gradient difference {np.abs(v[1:] - Gi.ravel()).max() if Gi.shape == G1.shape else 'shape'})", case)
         R.extra['traces_validated_against_impl'] = len(lines)
 
